@@ -129,6 +129,42 @@ impl<'profile> SetupScripts<'profile> {
     }
 }
 
+/// Verification hook: which scripts are enabled (in run order) and to which listed tests each applies.
+#[cfg(feature = "verif-hooks")]
+impl SetupScripts<'_> {
+    /// Returns the enabled script ids in run order, and for every matching test of the list (binary
+    /// id, test name) whether each enabled script applies to it -- the predicate that decides whose
+    /// environment a script's variables reach.
+    pub fn verif_enabled(
+        &self,
+        profile: &EvaluatableProfile<'_>,
+        test_list: &TestList<'_>,
+    ) -> (Vec<String>, Vec<(String, String, Vec<bool>)>) {
+        let ids = self
+            .enabled_scripts
+            .keys()
+            .map(|id| id.to_string())
+            .collect();
+        let cx = profile.filterset_ecx();
+        let per_test = test_list
+            .iter_tests()
+            .filter(|test| test.test_info.filter_match.is_match())
+            .map(|test| {
+                let query = test.to_test_query();
+                (
+                    test.suite_info.binary_id.to_string(),
+                    test.name.to_owned(),
+                    self.enabled_scripts
+                        .values()
+                        .map(|script| script.is_enabled(&query, &cx))
+                        .collect(),
+                )
+            })
+            .collect();
+        (ids, per_test)
+    }
+}
+
 /// Data about an individual setup script.
 ///
 /// Returned by [`SetupScripts::iter`].
